@@ -47,6 +47,8 @@ const TX_OPS: &[&str] = &[
     "UPDATE t SET w = NULL WHERE id = 2",
     "SAVEPOINT s1",
     "ROLLBACK TO SAVEPOINT s1",
+    // a statement the open transaction refuses (it must not disturb what ROLLBACK restores)
+    "BEGIN",
 ];
 
 const FUTURE: &[&str] = &[
